@@ -275,6 +275,9 @@ package route
 //@ assume net/http.NewRequest
 //@   ensures result1 == nil ==> result0 != nil && isFresh(result0) && result0.Method == method && reqURL(result0) == url && content(result0.Body) == content(body)
 //@   ensures[new-request-has-no-headers@C37] result1 == nil ==> (forall k string :: !in(result0.Header, k))
+// transmit.sendBatch: method POST and a URL that url.JoinPath has just produced - NewRequest's only failure modes
+// (invalid method, unparsable URL) are excluded
+//@   ensures[a-joined-url-parses@C26,C36] result1 == nil && result0 != nil
 //@ assume net/http.(*Request).WithContext
 //@   ensures result != nil && isFresh(result) && result.Method == r.Method && reqURL(result) == reqURL(r) && toInt(result.Body) == toInt(r.Body) && result.RemoteAddr == r.RemoteAddr
 //@   ensures[same-headers@C37] result.Header == r.Header
@@ -283,10 +286,14 @@ package route
 //@   ghostupdate doN(c), doReq(c), doResp(c) :: doN(c) == old(doN(c)) + 1 && toInt(doReq(c)) == toInt(req) && toInt(doResp(c)) == toInt(result0)
 //@   ensures result1 == nil ==> result0 != nil && result0.Body != nil
 //@   ensures[response-header-names-are-canonical@C37] result1 == nil ==> (forall k string :: in(result0.Header, k) ==> canonHeader(k) == k)
+//@   ensures[a-fresh-answer-is-open@C26,C36] result0 != nil ==> result0.Body != nil && !bodyClosed(result0.Body)
 //@ assume io.Copy
 //@   ghostupdate copyN(dst), copied(dst) :: copyN(dst) == old(copyN(dst)) + 1 && copied(dst) == content(src)
+//@ ghost bodyClosed(ref) bool
 //@ assume io.Closer.Close
+//@   ghostupdate[closed@C26,C36] bodyClosed(this) :: bodyClosed(this)
 //@ assume io.ReadCloser.Close
+//@   ghostupdate[closed@C26,C36] bodyClosed(this) :: bodyClosed(this)
 
 //@ contract route.(*Router).proxy props C37
 //@   arith math
